@@ -276,6 +276,9 @@ func (f *c25Frag) dollar(s string, i int) (int, int) {
 		default:
 			return 0, -1
 		}
+		if j < len(s) && s[j] == '~' {
+			return 0, -1
+		}
 		k := f.word(s, j)
 		if k < 0 {
 			return 0, k
@@ -298,6 +301,7 @@ func (f *c25Frag) dollar(s string, i int) (int, int) {
 
 // c25FragDoc: 1 inside the fragment and well formed, 2 inside and a syntax error, 0 outside.
 func c25FragDoc(s string, env func(string) string) int {
+	s = c25JoinLines(s)
 	f := &c25Frag{env: env}
 	i := 0
 	for i < len(s) {
@@ -607,4 +611,500 @@ func c25GenWords(r *Rand, rich bool) string {
 		s = s[:r.Intn(len(s)+1)]
 	}
 	return s
+}
+
+// ---------- exclusion regions of the search leg ----------
+
+var c25NameSet = func() map[string]bool {
+	m := map[string]bool{}
+	for _, n := range c25Names {
+		m[n] = true
+	}
+	return m
+}()
+
+// c25Excl scans the string for constructs whose comparison with bash is excluded: by design of the
+// API (command substitution, special parameters, assignments), because they belong to another
+// property (arithmetic beyond + - *, C20), or because of a known finding of C25.
+func c25Excl(cs c25Case, fields bool) string {
+	s := cs.s
+	env := cs.envFunc()
+	if strings.ContainsAny(s, "\x00\r") {
+		return "nul-cr"
+	}
+	if strings.Contains(s, "`") {
+		return "cmdsubst"
+	}
+	if strings.Contains(s, "\\\\\\\n") {
+		return "continuation-after-backslashes" // three or more backslashes before a newline
+	}
+	cleanNum := func(v string) bool {
+		if v == "" {
+			return true
+		}
+		if len(v) > 6 || len(v) > 1 && v[0] == '0' {
+			return false
+		}
+		for i := 0; i < len(v); i++ {
+			if !c25Digit(v[i]) {
+				return false
+			}
+		}
+		return true
+	}
+	for i := 0; i < len(s); i++ {
+		if s[i] == '\\' {
+			i++
+			continue
+		}
+		if fields && s[i] == '\'' { // single quotes protect everything (Fields only)
+			j := strings.IndexByte(s[i+1:], '\'')
+			if j < 0 {
+				break
+			}
+			i += j + 1
+			continue
+		}
+		if fields && (s[i] == '<' || s[i] == '>') && i+1 < len(s) && s[i+1] == '(' {
+			return "procsubst-panic"
+		}
+		if fields && s[i] == '~' && i > 0 && (s[i-1] == '=' || s[i-1] == ':') {
+			return "tilde-after-equals"
+		}
+		if fields && s[i] == '~' && env("HOME") == "" && (i == 0 || strings.IndexByte(" \t\n", s[i-1]) >= 0) {
+			return "tilde-no-home" // bash falls back to the password database
+		}
+		if fields && s[i] == '~' && i+1 < len(s) && strings.IndexByte("/ \t\n'\"$", s[i+1]) < 0 && (i == 0 || strings.IndexByte(" \t\n", s[i-1]) >= 0) {
+			return "tilde-user" // ~name, ~+, ~-: depends on the system / on PWD
+		}
+		if s[i] != '$' || i+1 >= len(s) {
+			continue
+		}
+		c := s[i+1]
+		switch {
+		case c == '(' && i+2 < len(s) && s[i+2] == '(':
+			// arithmetic: up to the matching ))
+			j := i + 3
+			depth := 0
+			for j < len(s) {
+				if s[j] == '(' {
+					depth++
+				} else if s[j] == ')' {
+					if depth == 0 {
+						break
+					}
+					depth--
+				}
+				j++
+			}
+			body := s[i+3 : min(j, len(s))]
+			for k := 0; k < len(body); k++ {
+				b := body[k]
+				if !(c25NameChar(b) || strings.IndexByte(" \t+-*()", b) >= 0) {
+					return "arith-beyond-fragment"
+				}
+			}
+			if strings.Contains(body, "++") || strings.Contains(body, "--") || strings.Contains(body, "**") || strings.TrimSpace(body) == "" {
+				return "arith-beyond-fragment"
+			}
+			// literals and variable values must be clean decimals
+			for k := 0; k < len(body); {
+				if c25NameChar(body[k]) {
+					l := k
+					for l < len(body) && c25NameChar(body[l]) {
+						l++
+					}
+					tok := body[k:l]
+					if c25Digit(tok[0]) {
+						if !cleanNum(tok) {
+							return "arith-beyond-fragment"
+						}
+					} else {
+						if !c25NameSet[tok] {
+							return "foreign-name"
+						}
+						if !cleanNum(env(tok)) {
+							return "arith-beyond-fragment"
+						}
+					}
+					k = l
+				} else {
+					k++
+				}
+			}
+		case c == '(':
+			return "cmdsubst"
+		case c == '[':
+			return "arith-beyond-fragment"
+		case c25Digit(c) || strings.IndexByte("@*#?$!-_", c) >= 0:
+			if c == '_' && i+2 < len(s) && c25NameChar(s[i+2]) {
+				// a name starting with _
+				j := i + 1
+				for j < len(s) && c25NameChar(s[j]) {
+					j++
+				}
+				if !c25NameSet[s[i+1:j]] {
+					return "foreign-name"
+				}
+				continue
+			}
+			return "special-param"
+		case c25NameStart(c):
+			j := i + 1
+			for j < len(s) && c25NameChar(s[j]) {
+				j++
+			}
+			if !c25NameSet[s[i+1:j]] {
+				return "foreign-name"
+			}
+		case c == '\'' || c == '"':
+			if fields {
+				return "dollar-quote" // $'…' / $"…": C13/C24 matters
+			}
+		case c == '{':
+			j := i + 2
+			if j < len(s) && strings.IndexByte("#!", s[j]) >= 0 {
+				j++
+			}
+			k := j
+			for k < len(s) && c25NameChar(s[k]) {
+				k++
+			}
+			if k == j {
+				if k < len(s) && (c25Digit(s[k]) || strings.IndexByte("@*#?$!-", s[k]) >= 0) {
+					return "special-param"
+				}
+				continue // `${}` and the like: syntax errors, compared
+			}
+			if !c25NameSet[s[j:k]] {
+				return "foreign-name"
+			}
+			if k < len(s) && (s[k] == '=' || s[k] == ':' && k+1 < len(s) && s[k+1] == '=') {
+				return "assign-op" // FuncEnviron is read-only by design
+			}
+			if k < len(s) && s[k] == '[' {
+				return "special-param"
+			}
+			// the word of an operator, up to the matching brace
+			if w := k; w < len(s) {
+				if s[w] == ':' {
+					w++
+				}
+				if w+1 < len(s) && strings.IndexByte("-+?", s[w]) >= 0 && s[w+1] == '~' {
+					return "param-word-tilde"
+				}
+			}
+			depth := 0
+			for l := k; l < len(s); l++ {
+				switch s[l] {
+				case '\\':
+					return "param-word-backslash"
+				case '\'', '"':
+					return "param-word-quotes"
+				case '{':
+					depth++
+				case '}':
+					if depth == 0 {
+						l = len(s)
+					} else {
+						depth--
+					}
+				}
+			}
+		}
+	}
+	if fields && strings.Contains(s, `""`) && strings.Contains(s, "$") {
+		return "c22-empty-dquotes"
+	}
+	return ""
+}
+
+// ---------- bash oracles ----------
+
+func c25Bash(c *Ctx, script string) (stdout string, status int, ok bool) {
+	for try := 0; try < 4; try++ {
+		dir := scratchDir(c)
+		outPath := filepath.Join(dir, "out.txt")
+		ctx, cancel := context.WithTimeout(context.Background(), 10*time.Second)
+		cmd := exec.CommandContext(ctx, "bash", "--norc", "--noprofile", "-c", script, "sh")
+		cmd.Dir = dir
+		cmd.Env = []string{"PATH=/usr/bin:/bin", "LC_ALL=C.utf8"}
+		outF, ferr := os.Create(outPath)
+		if ferr != nil {
+			cancel()
+			os.RemoveAll(dir)
+			continue
+		}
+		cmd.Stdout = outF
+		cmd.WaitDelay = 2 * time.Second
+		err := cmd.Run()
+		outF.Close()
+		ob, _ := os.ReadFile(outPath)
+		timedOut := ctx.Err() != nil
+		cancel()
+		os.RemoveAll(dir)
+		if timedOut {
+			continue
+		}
+		st := 0
+		if err != nil {
+			ee, isExit := err.(*exec.ExitError)
+			if !isExit {
+				continue
+			}
+			st = ee.ExitCode()
+		}
+		return string(ob), st, true
+	}
+	return "", 0, false
+}
+
+func c25ShQuote(s string) string { return "'" + strings.ReplaceAll(s, "'", `'"'"'`) + "'" }
+
+func c25Assignments(cs c25Case) string {
+	var sb strings.Builder
+	// empty means unset: only non-empty variables exist for bash
+	sb.WriteString("unset " + strings.Join(c25Names, " ") + "\n")
+	seen := map[string]bool{}
+	for _, kv := range cs.env {
+		if kv[1] != "" && !seen[kv[0]] {
+			seen[kv[0]] = true
+			sb.WriteString(kv[0] + "=" + c25ShQuote(kv[1]) + "\n")
+		}
+	}
+	return sb.String()
+}
+
+// c25BashExpand: the string as here-document text.
+func c25BashExpand(c *Ctx, cs c25Case) (string, bool) {
+	delim := "EOF_C25"
+	for strings.Contains(cs.s, delim) {
+		delim += "_"
+	}
+	script := c25Assignments(cs) + "cat <<" + delim + "\n" + cs.s + "\n" + delim + "\n"
+	out, st, ok := c25Bash(c, script)
+	if !ok {
+		return "", false
+	}
+	if st != 0 {
+		return "err", true
+	}
+	return "ok " + hx(strings.TrimSuffix(out, "\n")), true
+}
+
+// c25BashFields: the string as the arguments of a function.
+func c25BashFields(c *Ctx, cs c25Case) (string, bool) {
+	script := c25Assignments(cs) + "set -f\nf() { printf '%s\\n' \"$#\"; printf '%s\\0' \"$@\"; }\nf " + cs.s + "\n"
+	out, st, ok := c25Bash(c, script)
+	if !ok {
+		return "", false
+	}
+	if st != 0 {
+		return "err", true
+	}
+	nl := strings.IndexByte(out, '\n')
+	if nl < 0 {
+		return "err", true
+	}
+	n, err := strconv.Atoi(out[:nl])
+	if err != nil {
+		return "err", true
+	}
+	parts := strings.Split(out[nl+1:], "\x00")
+	if n == 0 {
+		return "ok", true
+	}
+	if len(parts) < n {
+		return "garbled " + hx(out), true
+	}
+	return strings.TrimSpace("ok " + hxs(parts[:n])), true
+}
+
+// ---------- the check ----------
+
+type c25Job struct {
+	cs     c25Case
+	fields bool
+	got    string
+	excl   string
+	corpus bool
+}
+
+func c25(c *Ctx) {
+	c.Rule = "strings built from text chunks (quotes, braces, operators, newlines), backslash sequences, $name/${name}/" +
+		"${name<op>word} (4 test operators; words with text, $name, ${name}), $(( )) over literals/names/+ - */parentheses, lone " +
+		"dollars; a rich stream adds other operators, special parameters, command substitutions, globs, braces, tildes, truncation; " +
+		"for Fields: 1–4 blank-separated words of bare text, \\c, '…', \"…\" and expansions; × environments over " +
+		"{x y e u n m sp q HOME x1 _v} with empty, blank-containing and non-numeric values; non-trivial = the string has an expansion; distinct by exact tokens"
+	debug := os.Getenv("C25_DEBUG") != ""
+	var jobs []c25Job
+	emit := func(cs c25Case, fields, corpus bool) {
+		toks := cs.tokens()
+		var got string
+		kind := "ex"
+		if fields {
+			got, _ = c25Fields(cs)
+			kind = "fl"
+		} else {
+			got = c25Expand(cs)
+		}
+		frag := 0
+		if fields {
+			frag = c25FragWords(cs.s, cs.envFunc())
+		} else {
+			frag = c25FragDoc(cs.s, cs.envFunc())
+		}
+		tags := []string{kind}
+		if frag != 0 {
+			tags = append(tags, kind+"-in-fragment")
+			if fields {
+				c.Op("fields "+toks, got)
+			} else {
+				c.Op("expand "+toks, got)
+			}
+		}
+		if strings.HasPrefix(got, "err") || got == "panic" {
+			tags = append(tags, kind+":"+strings.Fields(got)[0])
+		}
+		excl := c25Excl(cs, fields)
+		if excl != "" {
+			tags = append(tags, "excl:"+excl)
+		}
+		if frag == 1 && excl == "" && strings.HasPrefix(got, "ok") {
+			if fields {
+				c.Op("specfields "+toks, got)
+			} else {
+				c.Op("specexpand "+toks, got)
+			}
+		}
+		c.Case(kind+"|"+toks, strings.Contains(cs.s, "$"), tags...)
+		if got == "panic" && excl == "" {
+			c.Fail(kind+" "+toks, fmt.Sprintf("panic on %q", cs.s))
+		}
+		jobs = append(jobs, c25Job{cs: cs, fields: fields, got: got, excl: excl, corpus: corpus})
+	}
+	for _, l := range c.CorpusLines() {
+		f := strings.Fields(l)
+		if len(f) < 2 || (f[0] != "ex" && f[0] != "fl") {
+			continue
+		}
+		if cs, ok := c25Parse(f[1:]); ok {
+			emit(cs, f[0] == "fl", true)
+		}
+	}
+	for i := 0; i < c.N; i++ {
+		r := c.R
+		rich := r.Chance(30)
+		env := c25GenEnv(r)
+		if r.Bool() {
+			emit(c25Case{s: c25GenDoc(r, rich), env: env}, false, false)
+		} else {
+			emit(c25Case{s: c25GenWords(r, rich), env: env}, true, false)
+		}
+	}
+	// search leg
+	nshell := c.N / 5
+	var sel []int
+	n := 0
+	for i, j := range jobs {
+		if j.fields && strings.Contains(j.cs.s, "\n") {
+			continue // a newline would end the command line of the oracle
+		}
+		if !j.fields && strings.HasSuffix(j.cs.s, `\`) {
+			k := len(j.cs.s) - len(strings.TrimRight(j.cs.s, `\`))
+			if k%2 == 1 {
+				continue // would continue onto the delimiter line
+			}
+		}
+		if j.got == "err cmdsubst" || j.got == "err readonly" {
+			continue
+		}
+		if j.corpus {
+			sel = append(sel, i)
+		} else if j.excl == "" && n < nshell {
+			sel = append(sel, i)
+			n++
+		}
+	}
+	type res struct {
+		bash string
+		ok   bool
+	}
+	results := parallelMap(len(sel), 4, func(k int) res {
+		j := jobs[sel[k]]
+		var r res
+		if j.fields {
+			r.bash, r.ok = c25BashFields(c, j.cs)
+		} else {
+			r.bash, r.ok = c25BashExpand(c, j.cs)
+		}
+		return r
+	})
+	nb := 0
+	for k, idx := range sel {
+		j := jobs[idx]
+		r := results[k]
+		if !r.ok {
+			c.Hist["bash-unavailable"]++
+			continue
+		}
+		nb++
+		got := j.got
+		if strings.HasPrefix(got, "err") {
+			got = "err"
+		}
+		kind := "ex"
+		if j.fields {
+			kind = "fl"
+			// a failed parse of a string with shell operators is not a statement about arguments
+			if got == "err" && r.bash != "err" && strings.ContainsAny(j.cs.s, ";|&<>()#") {
+				c.Hist["fl-operator-not-compared"]++
+				continue
+			}
+		}
+		if got != r.bash {
+			witness := kind + " " + j.cs.tokens()
+			what := fmt.Sprintf("shell.%s(%q) with env %q gives %s, bash gives %s", map[bool]string{false: "Expand", true: "Fields"}[j.fields], j.cs.s, j.cs.env, c25Show(j.got), c25Show(r.bash))
+			c.Fail(witness, what)
+			if debug {
+				fmt.Printf("MISMATCH %s\n   %s\n", what, witness)
+			}
+		}
+	}
+	c.Extra["bash_runs"] = nb
+	_ = sort.Strings
+}
+
+func c25Show(ans string) string {
+	f := strings.Fields(ans)
+	if len(f) == 0 || f[0] != "ok" {
+		return ans
+	}
+	var parts []string
+	for _, h := range f[1:] {
+		parts = append(parts, strconv.Quote(unhx(h)))
+	}
+	return "[" + strings.Join(parts, " ") + "]"
+}
+
+// c25JoinLines: the lexer's rune-level line continuation (see joinLines in the Lean model).
+func c25JoinLines(s string) string {
+	var sb strings.Builder
+	prevBS := false
+	for i := 0; i < len(s); i++ {
+		b := s[i]
+		if b == '\\' {
+			if !prevBS && i+1 < len(s) && s[i+1] == '\n' {
+				i++
+				prevBS = false
+				continue
+			}
+			sb.WriteByte(b)
+			prevBS = true
+			continue
+		}
+		sb.WriteByte(b)
+		prevBS = false
+	}
+	return sb.String()
 }
